@@ -1,4 +1,5 @@
 import HdVerif.Proofs.SRReport
+import HdVerif.Proofs.SRReportTie
 import HdVerif.Generated.T16d
 import HdVerif.Generated.T16e
 import HdVerif.Generated.T16f
@@ -14,7 +15,7 @@ search are hand-modelled and checked against the real queries (tie C).  `specKin
 declarative statement over the CONSTRUCTION PARAMETERS of a group (`Params`), `mkGroup` is the layout the
 constructors produce (checked against the real containers item for item). -/
 namespace HdVerif.C16
-open HdVerif HdVerif.SRReport HdVerif.SRReportLemmas
+open HdVerif HdVerif.SRReport HdVerif.SRReportLemmas HdVerif.SRReportTie
 
 /-! ## the result is a document-order filter -/
 
@@ -157,6 +158,70 @@ theorem volumetric_graphic_filter_order_independent (items items' : List GItem) 
     volGraphicMatches items gt = volGraphicMatches items' gt := by
   unfold volGraphicMatches
   exact h.any_eq
+
+/-! ## the hand-written loop pieces are the source's expressions (tie pass) -/
+
+/-- **The kind test of the model is the head of each query loop as it stands in the source** (T16j): the template
+identifier decides when the container has one ("1410" / "1411" / "1501"), the content classification otherwise (for the
+image query: neither planar nor volumetric content, both classifications consulted).  `c`, `c'`, `s` are universally
+quantified: a container WITH a template identifier is decided by the identifier whatever its content would say, one without
+by its content alone. -/
+theorem kind_test_is_source_head (g : Group) (c c' : Bool) (s : String) :
+    (isKind .planar g = match g.templateId with
+      | some t => Gen.planarHead true t c
+      | none => match containsPlanar g with
+        | .error e => .error e
+        | .ok p => Gen.planarHead false s p) ∧
+    (isKind .volumetric g = match g.templateId with
+      | some t => Gen.volumetricHead true t c
+      | none => match containsVolumetric g with
+        | .error e => .error e
+        | .ok v => Gen.volumetricHead false s v) ∧
+    (isKind .image g = match g.templateId with
+      | some t => Gen.imageHead true t c c'
+      | none => match containsPlanar g with
+        | .error e => .error e
+        | .ok p => match containsVolumetric g with
+          | .error e => .error e
+          | .ok v => Gen.imageHead false s p v) :=
+  ⟨isKind_planar_is_source_head g c s, isKind_volumetric_is_source_head g c s, isKind_image_is_source_head g c c' s⟩
+
+/-- **The ROI reference search of the model is the iteration of the step extracted from `_get_roi_reference_items`** (T16i):
+items with another relationship than CONTAINS, under a name that is not allowed or of a value type the table does not list
+for the name are skipped; the first item kept names the reference type; a kept item under another name, or a second item of
+a reference type other than image region / volume surface, raises RuntimeError — the source's tests in the source's order. -/
+theorem roi_search_is_iteration_of_source_step (allowed : List String) (it : GItem) (rest : List GItem) (rt : Option String)
+    (acc : List GItem) (vts : List String) (hlk : Gen.refTypeValueTypes.lookup it.name = some vts) :
+    roiRefLoop allowed (it :: rest) rt acc =
+      match Gen.roiRefStep it.rel (allowed.contains it.name) (vts.contains it.vt) rt.isSome (rt == some it.name) (rt.getD "") with
+      | .error e => .error e
+      | .ok true => roiRefLoop allowed rest (some (rt.getD it.name)) (acc ++ [it])
+      | .ok false => roiRefLoop allowed rest rt acc :=
+  roiRefLoop_cons allowed it rest rt acc vts hlk
+
+/-- **Every filter forwards the source's arguments to the search helpers** (T16h: the calls of `_contains_code_items` /
+`_contains_uidref_items` / `_contains_image_items` in the three loops, in source order): which concept name each filter
+searches under, with which relationship type, in which parent (the group, or the reference item's children). -/
+theorem filters_forward_source_arguments (g : Group) (f : Filters) (it : GItem) (cls inst : Option String) :
+    (commonFrom (callsOf planarName) g f = some (commonMatches g f) ∧
+     commonFrom (callsOf volumetricName) g f = some (commonMatches g f) ∧
+     commonFrom (callsOf imageName) g f = some (commonMatches g f)) ∧
+    (((callsOf planarName).drop 3).map (fun r => imageSearchFrom r g it cls inst) =
+       [some (kidsContainImage it cls inst), some (containsImage g cSourceImageForSegmentation "CONTAINS" cls inst)] ∧
+     ((callsOf volumetricName).drop 3).map (fun r => imageSearchFrom r g it cls inst) =
+       [some (kidsContainImage it cls inst), some (containsImage g cSourceImageForSegmentation "CONTAINS" cls inst)] ∧
+     ((callsOf imageName).drop 3).map (fun r => imageSearchFrom r g it cls inst) =
+       [some (containsImage g cSource "CONTAINS" cls inst)]) :=
+  ⟨commonMatches_forwards_source_arguments g f, uid_searches_forward_source_arguments g it cls inst⟩
+
+/-- non-vacuity: the extracted step refuses a second segment reference, keeps a second volume surface, skips an item with
+another relationship; the extracted heads tell the template identifiers apart -/
+example : Gen.roiRefStep "CONTAINS" true true true true cReferencedSegment = .error .runtime := by decide
+example : Gen.roiRefStep "CONTAINS" true true true true cVolumeSurface = .ok true := by decide
+example : Gen.roiRefStep "CONTAINS" true true true false cImageRegion = .error .runtime := by decide
+example : Gen.roiRefStep "HAS PROPERTIES" true true false false "" = .ok false := by decide
+example : Gen.planarHead true "1411" true = .ok false ∧ Gen.planarHead true "1410" false = .ok true ∧
+          Gen.planarHead false "" true = .ok true ∧ Gen.imageHead false "" false true = .ok false := by decide
 
 /-! ## malformed stored items -/
 
